@@ -202,7 +202,7 @@ def evaluate(case: dict) -> list[Violation]:
 
 
 def shards(tier: str, seed: int) -> list[dict]:
-    n_sh, per = (16, 90) if tier == "quick" else (48, 1000)
+    n_sh, per = (16, 90) if tier == "quick" else (48, 500)
     return [{"seed": seed * 1000 + i, "n": per} for i in range(n_sh)]
 
 
